@@ -61,7 +61,7 @@ class KernelModel:
                 self.loop_stmt(st["e"], ev)
         if h.get("expr") is not None:
             e = K.peel(h["expr"])
-            if e.get("k") == "MethodCall" and e.get("method") == "for_each":
+            if K.for_each_view(e) is not None:
                 self.loop_stmt(e, ev)
             else:
                 self.final = e
@@ -139,7 +139,8 @@ class KernelModel:
         if e.get("k") in ("Assign", "AssignOp"):
             ev.exec(e)     # step-wise reduction of the accumulators in the kernel body itself
             return
-        if e.get("k") != "MethodCall" or e.get("method") != "for_each":
+        e = K.for_each_view(e)      # `xs.for_each(|p| ..)` or `for p in xs { .. }`
+        if e is None:
             return
         ops = []
         for x in hir_walk(e["recv"]):
